@@ -9,7 +9,7 @@ use std::fmt::Write;
 const DBG: bool = cfg!(debug_assertions);
 const PATH: u64 = if cfg!(all(target_arch = "x86_64", target_feature = "bmi2")) { 0 } else { 1 };
 
-fn build_routes(bits: &[bool]) -> (BitVector, bool) {
+fn build_routes(bits: &[bool], sup: u64) -> (BitVector, bool) {
     let words = to_words(bits);
     // route 1: raw vector
     let mut raw = RawVector::with_capacity(bits.len());
@@ -26,17 +26,42 @@ fn build_routes(bits: &[bool]) -> (BitVector, bool) {
     let mut c = BitVector::copy_bit_vec(&a);
     let mut same = a == b && a == c && serialize_elems(&a) == serialize_elems(&b) && serialize_elems(&a) == serialize_elems(&c);
     for v in [&mut a, &mut b, &mut c] {
-        v.enable_rank();
-        v.enable_select();
-        v.enable_select_zero();
+        if sup & 1 != 0 {
+            v.enable_rank();
+        }
+        if sup & 2 != 0 {
+            v.enable_select();
+        }
+        if sup & 4 != 0 {
+            v.enable_select_zero();
+        }
     }
     same = same && a == b && a == c && serialize_elems(&a) == serialize_elems(&b) && serialize_elems(&a) == serialize_elems(&c);
     (a, same)
 }
 
-fn emit(out: &mut Out, kind: &str, bits: &[bool], all_queries: bool, nq: usize, rng: &mut Rng) {
+fn emit(out: &mut Out, kind: &str, bits: &[bool], all_queries: bool, nq: usize, rng: &mut Rng, sup: u64) {
+    // the implementation must answer every query; a panic anywhere is reported as a crashing case
+    let mut rng2 = rng.clone();
+    rng.next();
+    let r = catch(|| {
+        let mut tmp = Out::collector("C01");
+        emit_inner(&mut tmp, kind, bits, all_queries, nq, &mut rng2, sup);
+        tmp
+    });
+    match r {
+        Res::Ok(tmp) => out.absorb(tmp),
+        Res::Panic(k, msg) => {
+            let words = to_words(bits);
+            out.case("crash", format!("CCrash {} {} {}", bits.len(), nlist(&words), k),
+                format!("{{\"len\":{},\"kind\":\"{}\",\"panic\":{:?},\"sup\":{},\"words\":{:?}}}", bits.len(), kind, msg, sup, if words.len() <= 64 { words.clone() } else { words[..64].to_vec() }), true);
+        }
+    }
+}
+
+fn emit_inner(out: &mut Out, kind: &str, bits: &[bool], all_queries: bool, nq: usize, rng: &mut Rng, sup: u64) {
     let len = bits.len();
-    let (bv, same) = build_routes(bits);
+    let (bv, same) = build_routes(bits, sup);
     let ser = serialize_elems(&bv);
     let ones = bv.count_ones();
     let zeros = bv.count_zeros();
@@ -87,36 +112,46 @@ fn emit(out: &mut Out, kind: &str, bits: &[bool], all_queries: bool, nq: usize, 
         if *i < len {
             push(format!("QGet {} {}", i, b(bv.get(*i))), &mut q);
         }
-        push(format!("QRank {} {}", i, bv.rank(*i)), &mut q);
-        if *i <= len {
-            push(format!("QRank0 {} {}", i, bv.rank_zero(*i)), &mut q);
+        if sup & 1 != 0 {
+            push(format!("QRank {} {}", i, bv.rank(*i)), &mut q);
+            if *i <= len {
+                push(format!("QRank0 {} {}", i, bv.rank_zero(*i)), &mut q);
+            }
         }
-        push(format!("QPred {} {}", i, opt(&bv.predecessor(*i).next(), |p| format!("({}, {})", p.0, p.1))), &mut q);
-        push(format!("QSucc {} {}", i, opt(&bv.successor(*i).next(), |p| format!("({}, {})", p.0, p.1))), &mut q);
+        if sup & 3 == 3 {
+            push(format!("QPred {} {}", i, opt(&bv.predecessor(*i).next(), |p| format!("({}, {})", p.0, p.1))), &mut q);
+            push(format!("QSucc {} {}", i, opt(&bv.successor(*i).next(), |p| format!("({}, {})", p.0, p.1))), &mut q);
+        }
     }
-    for r in ranks.iter() {
-        push(format!("QSel {} {}", r, opt(&bv.select(*r), |p| nu(*p))), &mut q);
+    if sup & 2 != 0 {
+        for r in ranks.iter() {
+            push(format!("QSel {} {}", r, opt(&bv.select(*r), |p| nu(*p))), &mut q);
+        }
     }
-    for r in zranks.iter() {
-        push(format!("QSel0 {} {}", r, opt(&bv.select_zero(*r), |p| nu(*p))), &mut q);
+    if sup & 4 != 0 {
+        for r in zranks.iter() {
+            push(format!("QSel0 {} {}", r, opt(&bv.select_zero(*r), |p| nu(*p))), &mut q);
+        }
     }
     q.push(']');
     // which regimes did the select supports use? (long superblocks are the branch the tests never reach)
     let words = to_words(bits);
     let mut term = String::new();
-    let _ = write!(term, "CBV {} {} {} {} {} {} {} {} {} {}", PATH, b(DBG), len, nlist(&words), nlist(&ser), b(same), bv.len(), ones, zeros, q);
+    let _ = write!(term, "CBV {} {} {} {} {} {} {} {} {} {} {}", PATH, b(DBG), sup, len, nlist(&words), nlist(&ser), b(same), bv.len(), ones, zeros, q);
     let nontrivial = len > 0;
     out.stat(&format!("c01.{}", kind));
     out.case(kind, term, format!("{{\"len\":{},\"ones\":{},\"kind\":\"{}\",\"words\":{:?}}}", len, ones, kind, if words.len() <= 64 { words.clone() } else { words[..64].to_vec() }), nontrivial);
 }
 
-pub fn run(rng: &mut Rng, out: &mut Out, thorough: bool) {
+pub fn run(rng: &mut Rng, out: &mut Out, thorough: bool, variant: &str) {
+    // the expensive long-superblock vectors run on one build in the quick tier
+    let full = thorough || variant == "native_dev";
     // exhaustive small scope
     let max_small = if thorough { 10 } else { 7 };
     for len in 0..=max_small {
         for pat in 0..(1u32 << len) {
             let bits: Vec<bool> = (0..len).map(|i| (pat >> i) & 1 == 1).collect();
-            emit(out, "exhaustive", &bits, true, 0, rng);
+            emit(out, "exhaustive", &bits, true, 0, rng, 7);
         }
     }
     // boundary lengths x styles
@@ -126,7 +161,7 @@ pub fn run(rng: &mut Rng, out: &mut Out, thorough: bool) {
             let style = pick_style(rng);
             let bits = gen_bits(rng, *len, style);
             let all = *len <= 600;
-            emit(out, "boundary", &bits, all, 60, rng);
+            emit(out, "boundary", &bits, all, 60, rng, 7);
         }
     }
     // random lengths
@@ -139,38 +174,43 @@ pub fn run(rng: &mut Rng, out: &mut Out, thorough: bool) {
         } as usize;
         let style = pick_style(rng);
         let bits = gen_bits(rng, len, style);
-        emit(out, "random", &bits, len <= 300, 50, rng);
+        emit(out, "random", &bits, len <= 300, 50, rng, 7);
     }
-    // long superblocks: span >= bit_len(len)^4 needs len >= 83521 (17^4)
-    let long_lens: Vec<usize> = if thorough { vec![83520, 83521, 83522, 100_000, 131_071, 131_072, 200_000, 400_000] } else { vec![83521, 131_072] };
+    // long superblocks: span >= bit_len(len)^4 needs len >= 83521 (17^4). To keep the Coq evaluation cheap the
+    // support on the populous side is not enabled: sparse ones -> rank + select, sparse zeros -> rank + select_zero.
+    let long_lens: Vec<usize> = if !full { vec![83521] } else if thorough { vec![83520, 83521, 83522, 100_000, 131_071, 131_072, 200_000, 262_143, 400_000] } else { vec![83521, 131_072] };
+    let nq = if thorough { 300 } else { 50 };
     for len in long_lens {
-        let mut variants: Vec<Vec<bool>> = Vec::new();
         // few ones spread out: the single (partial) superblock is long
         let mut v = vec![false; len];
         for _ in 0..(5 + rng.below(40)) {
             v[rng.below(len as u64) as usize] = true;
         }
         v[len - 1] = true;
-        variants.push(v);
+        emit(out, "long", &v, false, nq, rng, 3);
         // few zeros in a sea of ones: long superblock for select_zero
         let mut v = vec![true; len];
         for _ in 0..(5 + rng.below(40)) {
             v[rng.below(len as u64) as usize] = false;
         }
-        variants.push(v);
-        // density 1/40: full long superblocks followed by a short partial one
-        variants.push(gen_bits(rng, len, Style::Sparse(40)));
+        emit(out, "long", &v, false, nq, rng, 5);
+        // a full long superblock followed by a short partial one
+        emit(out, "long", &gen_bits(rng, len, Style::Sparse(40)), false, nq, rng, 3);
         if thorough {
-            variants.push(gen_bits(rng, len, Style::Dense(40)));
-            // a dense prefix then a sparse tail: short superblocks then long ones
+            emit(out, "long", &gen_bits(rng, len, Style::Dense(40)), false, nq, rng, 5);
+            // a dense prefix then a sparse tail: short superblocks then long ones, all supports
             let mut v = gen_bits(rng, len, Style::Sparse(60));
             for i in 0..20000 {
                 v[i] = rng.below(2) == 0;
             }
-            variants.push(v);
+            emit(out, "long", &v, false, nq, rng, 7);
         }
-        for bits in variants {
-            emit(out, "long", &bits, false, if thorough { 300 } else { 50 }, rng);
-        }
+    }
+    // several long superblocks in one vector (pointer arithmetic into the `long` array beyond the first one):
+    // 4096 ones must span >= 18^4 = 104976 positions, i.e. density below 1/25.6 at lengths 131072..262143
+    let long2: Vec<(usize, u64)> = if thorough { vec![(250_000, 30), (262_143, 27)] } else if full { vec![(215_000, 26)] } else { vec![] };
+    for (len, k) in long2 {
+        emit(out, "long2", &gen_bits(rng, len, Style::Sparse(k)), false, nq, rng, 3);
+        emit(out, "long2", &gen_bits(rng, len, Style::Dense(k)), false, nq, rng, 5);
     }
 }
